@@ -637,7 +637,7 @@ func c09Work(c *engine.Ctx) {
 					one(html.DoctypeToken, "<!doctype "+q+">", "<!doctype "+q+">", " "+q), one(html.DoctypeToken, "<!DOCTYPE html "+q+">", "<!DOCTYPE html "+q+">", " html "+q),
 					one(html.TextToken, "<![CDATA[a"+q+"b]]>", "<![CDATA[a"+q+"b]]>", "a"+q+"b"),
 					one(html.EndTagToken, "</a"+q+">", "</a"+q+">", "a"+q), one(html.EndTagToken, "</A "+q+" >", "</a "+q+" >", "a "+q), one(html.EndTagToken, "</P"+q+"Q>", "</p"+q+"Q>", "p"+q+"Q"),
-					one(html.SVGToken, "<svg>"+q+"</svg>", "<svg>"+q+"</svg>", ""), one(html.SVGToken, "<SVG a="+q+"><b/></svg>", "<svg a="+q+"><b/></svg>", ""), one(html.MathToken, "<math><mi>"+q+"</mi></math>", "<math><mi>"+q+"</mi></math>", ""),
+					one(html.SVGToken, "<svg>"+q+"</svg>", "<svg>"+q+"</svg>", ""), one(html.SVGToken, "<svg><!-- "+q+" --><b/></svg>", "<svg><!-- "+q+" --><b/></svg>", ""), one(html.MathToken, "<math><![CDATA[a"+q+"]]></math>", "<math><![CDATA[a"+q+"]]></math>", ""), one(html.SVGToken, "<SVG a="+q+"><b/></svg>", "<svg a="+q+"><b/></svg>", ""), one(html.MathToken, "<math><mi>"+q+"</mi></math>", "<math><mi>"+q+"</mi></math>", ""),
 					hCons{"<plaintext>a" + q + "b", []hTok{{tt: html.StartTagToken, data: "<plaintext", text: "plaintext"}, {tt: html.StartTagCloseToken, data: ">"}, {tt: html.TextToken, data: "a" + q + "b", text: "a" + q + "b", tmpl: true}}},
 					hCons{"<script><!--" + q + "--></script>", []hTok{{tt: html.StartTagToken, data: "<script", text: "script"}, {tt: html.StartTagCloseToken, data: ">"}, {tt: html.TextToken, data: "<!--" + q + "-->", text: "<!--" + q + "-->", tmpl: true}, {tt: html.EndTagToken, data: "</script>", text: "script"}}},
 					hCons{"<script><!--<script>" + q + "</script>--></script>", []hTok{{tt: html.StartTagToken, data: "<script", text: "script"}, {tt: html.StartTagCloseToken, data: ">"}, {tt: html.TextToken, data: "<!--<script>" + q + "</script>-->", text: "<!--<script>" + q + "</script>-->", tmpl: true}, {tt: html.EndTagToken, data: "</script>", text: "script"}}})
@@ -697,7 +697,7 @@ func c09Work(c *engine.Ctx) {
 func init() {
 	register(&engine.Check{
 		ID: "C09", Level: "exploration",
-		Rule:        "documents = every sequence of ≤2 (3) constructs from a catalogue of ~75 (text incl. stray '<', comments of every closing form, bogus comments, doctype in three cases, CDATA, end tags with whitespace, start tags × 13 attribute forms × closers × whitespace, svg/math subtrees with quoted end-tag look-alikes), plain and (≤2 constructs) under three dialects: token list (type, data, Text/AttrKey lower-cased, AttrVal verbatim, HasTemplate) equals the list known by construction; 7 raw-text elements × every content of ≤4 (5) fragments over {<, /, </, name, NAME, namex, <!--, -->, <script, </script, >, space, a, -, ', newline} × 3 tails × 2 start-tag spellings: the text token must end exactly where a transcription of the HTML tokenizer's RCDATA/RAWTEXT/script-data (double-escape) states ends the content; six template dialects × 10 region bodies (quotes, escaped quotes, fake end delimiter, and the quoted terminator of the surrounding token) × 27 placements with expected tokens (text, attribute names and values, raw text incl. plaintext and the escaped script states, comments of every kind, doctype, CDATA, end tags, svg/math); attribute/tag structure invariants on all byte strings ≤3-5 atoms over the HTML alphabets × dialects",
+		Rule:        "documents = every sequence of ≤2 (3) constructs from a catalogue of ~75 (text incl. stray '<', comments of every closing form, bogus comments, doctype in three cases, CDATA, end tags with whitespace, start tags × 13 attribute forms × closers × whitespace, svg/math subtrees with quoted end-tag look-alikes), plain and (≤2 constructs) under three dialects: token list (type, data, Text/AttrKey lower-cased, AttrVal verbatim, HasTemplate) equals the list known by construction; 7 raw-text elements × every content of ≤4 (5) fragments over {<, /, </, name, NAME, namex, <!--, -->, <script, </script, >, space, a, -, ', newline} × 3 tails × 2 start-tag spellings: the text token must end exactly where a transcription of the HTML tokenizer's RCDATA/RAWTEXT/script-data (double-escape) states ends the content; six template dialects × 10 region bodies (quotes, escaped quotes, fake end delimiter, and the quoted terminator of the surrounding token) × 29 placements with expected tokens (text, attribute names and values, raw text incl. plaintext and the escaped script states, comments of every kind, doctype, CDATA, end tags, svg/math); attribute/tag structure invariants on all byte strings ≤3-5 atoms over the HTML alphabets × dialects",
 		Assumptions: []string{"an end tag is 'matching' when its name is followed by whitespace, '/' or '>' (HTML tokenizer: appropriate end tag token)", "html.ToHash is covered by C16"},
 		Setup:       c09Setup, Work: c09Work,
 	})
